@@ -2,7 +2,7 @@
 from dsim import seams
 from dsim.core import HarnessError
 from props.common import gen_strategy, quiet_logging, Violations
-from worlds.full import FullWorld, default_cluster_spec, ReqObs
+from worlds.full import control_labels, FullWorld, default_cluster_spec, ReqObs
 
 ID = 'C44'
 TIERS = {'quick': {'runs': 7500, 'budget_s': 55, 'wall_cap': 120, 'block': 40},
@@ -94,7 +94,7 @@ def run_plan(plan, seed, choices=None):
             def srv_close():
                 # the node closes its side of the idle pooled connection in an orderly way (FIN, no error)
                 for nc in fc.nodes[sc['node']].conns:
-                    if not nc.events and not nc.closed and not nc.conn.reset:
+                    if not nc.events and nc.label not in control_labels() and not nc.closed and not nc.conn.reset:
                         nc.conn.server_close()
                         st.setdefault('srvclosed', []).append((nc.label, sim.vnow(), sc['node'], sim.nlog))
                 sim.rec('fault', 'server closes idle pool connection n%d' % sc['node'])
@@ -108,7 +108,7 @@ def run_plan(plan, seed, choices=None):
         w.sleep(bp['at'])
         node = fc.nodes[bp['node']]
         for nc in node.conns:
-            if not nc.events and not nc.closed:
+            if not nc.events and nc.label not in control_labels() and not nc.closed:
                 nc.conn.sock.room_left = 20
                 nc.conn.sock.force_eagain = True
                 st.setdefault('eagain_socks', []).append((nc.conn.sock, sim.vnow()))
@@ -153,6 +153,7 @@ def run_plan(plan, seed, choices=None):
     socks = dict((s.label, s) for s in w.net.all_socks if s.label)
     beats = 0
     flags = {'busy': False, 'bad': False}
+    ctrl_labels = control_labels()
     for n in fc.nodes:
         script_mode = [h['mode'] for h in plan['hb_script'] if h['node'] == n.idx]
         for nc in n.conns:
@@ -175,7 +176,8 @@ def run_plan(plan, seed, choices=None):
                     V.add('C44/beat', 'heartbeat-too-late', 'node %d %s: idle healthy connection went %.3f s without a heartbeat (interval %.2f, timeout %.2f)'
                           % (n.idx, nc.label, gap, I, T))
             # an idle healthy connection that lived for several intervals must have been beaten at all
-            if s is not None and not replies:
+            # (a control connection that never got as far as REGISTER was never installed: nobody owes it heartbeats)
+            if s is not None and not replies and not (nc.label in ctrl_labels and not nc.events):
                 alive_until = s.closed_t if s.closed_t is not None else st.get('t_end', sim.vnow())
                 born = next((e['t'] for e in n.log if e['conn'] == nc.label), None)
                 if born is not None and alive_until - born > 2 * I + T + 0.5 and not hbs and not nc.conn.reset:
@@ -236,7 +238,7 @@ def run_plan(plan, seed, choices=None):
         if st.get('t_end', 0) > limit + 0.1:
             node = fc.nodes[nidx]
             down = [ev for ev in w.recorder.events if ev[2] == 'down' and ev[3] == node.addr and ev[0] > seq0]
-            newer = [nc for nc in node.conns if not nc.events and nc.label != label and nc.accepted_seq > seq0]
+            newer = [nc for nc in node.conns if not nc.events and nc.label not in control_labels() and nc.label != label and nc.accepted_seq > seq0]
             reacted_t = min([ev[1] for ev in down] + [nc.accepted_t for nc in newer] + [1e18])
             if reacted_t > limit:
                 V.add('C44/detect', 'closed-idle-connection-owner-not-notified',
